@@ -1,8 +1,7 @@
 /-
 C01 — property theorems.
 -/
-import TornadoModel.C01.RoundTrip
-import TornadoModel.C01.Ext
+import TornadoModel.C01.Refine
 namespace TornadoModel.C01
 
 /-! ## 1. request line: exactly `token SP target SP HTTP/1.d` -/
@@ -366,13 +365,33 @@ example : events (run {} init [postChunkedHead ++ Spec.encodeChunks [[97, 98, 99
     = [.req [80, 79, 83, 84] [47] kHttp11 [(kHost, [120]), (kTransferEncoding, kChunked)], .data 0 [97, 98, 99, 100], .fin, .w200] := by
   decide
 
-/-! ## tie-only goals (stated, not proved) -/
+/-! ## 6. the machine agrees with the batch reader -/
 
-/-- the incremental machine on the whole stream agrees with the batch reader `Spec.readAll` (finished requests and
-    how the stream ends).  Checked on every generated case through impl = Model and impl ⊨ Spec. -/
-def model_eq_spec_goal : Prop :=
+/-- the machine refines the batch strict reader: the request heads the batch reader `Spec.readAll` extracts from the
+    whole byte string are, in order, a prefix of the request heads the machine accepts (the machine may show one more
+    head to the delegate: that of a request whose body is still pending or is rejected later) -/
+theorem model_refines_spec (cfg : Cfg) (bytes : Str) :
+    (Spec.readAll cfg bytes).1.map headOf <+: (events (run cfg init [bytes])).filterMap reqOf := by
+  have h := refine_main cfg (bytes.length + 1) { init with buf := bytes } rfl (Nat.lt_succ_self _)
+  have e1 : run cfg init [bytes] = drain cfg { init with buf := bytes } := by simp [run, feed, St.app, init]
+  rw [e1]
+  simpa [reqsOf, init, Spec.readAll, events] using h
+
+/-- the incremental machine on the whole stream agrees with the batch reader `Spec.readAll` on the finished requests
+    (formerly the tie-only goal `model_eq_spec_goal`; also checked on every generated case through impl = Model and
+    impl ⊨ Spec). -/
+theorem model_eq_spec :
   ∀ (cfg : Cfg) (bytes : Str),
     ((events (run cfg init [bytes])).filterMap reqOf).take (Spec.readAll cfg bytes).1.length
-      = (Spec.readAll cfg bytes).1.map (fun r => (r.m, r.t, r.v, r.h))
+      = (Spec.readAll cfg bytes).1.map (fun r => (r.m, r.t, r.v, r.h)) := by
+  intro cfg bytes
+  have h := model_refines_spec cfg bytes
+  rw [List.prefix_iff_eq_take] at h
+  rw [List.length_map] at h
+  exact h.symm
+
+-- non-vacuity: two pipelined requests `GET / HTTP/1.1␍␊Host:x␍␊␍␊`, both extracted by the batch reader
+def getHead : Str := [71, 69, 84, 32, 47, 32, 72, 84, 84, 80, 47, 49, 46, 49, 13, 10, 72, 111, 115, 116, 58, 120, 13, 10, 13, 10]
+example : (Spec.readAll {} (getHead ++ getHead)).1.length = 2 := by decide
 
 end TornadoModel.C01
